@@ -127,6 +127,9 @@ def violations(alg, op):
         yield ("size", "1031", ("RSA", 1031), None, True)
     # --- use
     yield ("use", "enc" if jws else "sig", good, {"use": "enc" if jws else "sig"}, True)
+    # ... also when the key states its operations as well (consistent with its use): the use still decides
+    yield ("use", "enc+key_ops" if jws else "sig+key_ops", good,
+           {"use": "enc", "key_ops": ["encrypt", "decrypt", "wrapKey", "unwrapKey", "deriveKey", "deriveBits"]} if jws else {"use": "sig", "key_ops": ["sign", "verify"]}, True)
     # --- key_ops
     required = {"sign": ["sign"], "verify": ["verify"]}.get(op)
     if required is None:
